@@ -329,6 +329,19 @@ func c08(c *ev.Ctx) {
 		pg := &gen.ProgGen{R: r, E: &gen.ExprGen{R: r, Env: env, Calls: true, IllTyped: 10}, CondFields: 2, MaxDepth: 3, MaxStmts: 4, Funcs: r.Intn(3), Mutators: true, Faults: true}
 		corpus = append(corpus, gast.Text(pg.Program()))
 	}
+	// the text after a dot is printed back while the script is still being parsed: every
+	// construct that can stand there, complete and broken, empty and half-written
+	{
+		bodies := []string{"return );", "return ;;", "return ];", "return }", "return", "return (;", "local ;", "local", "a = ;", "a += ;", "foreach in x { }", "foreach e in { }", "if () { }", "if (1) { ", "x = [1, ;", "f(;", "f(1, );", "switch (1) { case { } }", "switch () { default { } }",
+			"function () { }", "function g( { }", "while () { }", "a ? : 2;", "a ? 1 : ;", "{ : }", "{\"k\": }", "[ , ]", "a[ ];", "a . ;", "- ;", "! ;", "1 .. ;", "a++ ++;", "\"open", "/open", "x = 1; return );", ""}
+		frames := []string{"x.if (1) { %s }", "x.while (c) { %s }", "x.foreach e in [1] { %s }", "x.function f() { %s }", "x.switch (1) { case 1 { %s } }", "x.switch (1) { default { %s } }", "y = x.(if (1) { %s });", "return x.if (1) { } else { %s };",
+			"x.y.if (1) { %s }", "x.[%s]", "x.{\"k\": %s}", "x.(%s)", "x.f(%s)", "x.-%s", "x.!%s", "h = {\"a\": 1}; return h.if (1) { %s };"}
+		for _, f := range frames {
+			for _, b := range bodies {
+				add(c08Case{Kind: "text", Script: fmt.Sprintf(f, b)})
+			}
+		}
+	}
 	nText := c.Pick(30000, 2000000)
 	for i := 0; i < nText; i++ {
 		r := c.Rng("text", i)
@@ -498,7 +511,12 @@ func c08(c *ev.Ctx) {
 		c.Inconclusive(fmt.Sprintf("only %d of %d cases reached the run-time path", accepted, len(cases)))
 	}
 	c.Sample(map[string]interface{}{"kind": "text", "script": clip(cases[0].Script, 200)})
-	c.Sample(map[string]interface{}{"kind": "struct", "script": cases[nText+2*len(c08FaultScripts)].Script, "object": gen.RandStruct(rand.New(rand.NewSource(cases[nText+2*len(c08FaultScripts)].ObjSeed)), 4, 45, 20).Desc})
+	for _, cs := range cases {
+		if cs.Kind == "struct" {
+			c.Sample(map[string]interface{}{"kind": "struct", "script": cs.Script, "object": gen.RandStruct(rand.New(rand.NewSource(cs.ObjSeed)), 4, 45, 20).Desc})
+			break
+		}
+	}
 	c08UsableAfterwards(c)
 	c08CompileGrowth(c)
 	// blocks behind constant conditions whose tail bytes look like opcodes (family shared with
